@@ -565,8 +565,8 @@ func C04(tier string) int {
 	rep.Assume("universe: 2 targets, 2 referrers, reference in {null, each target, missing}; hostile id strings as target ids")
 	rep.Set("rule", "BFS to closure per wiring; oracle = complete image from reference model (back-reference buckets included), API reads, error class per operation")
 
-	plainOwners := []string{"o1", "o2"}
-	widgets := []string{"w1", "w2"}
+	plainOwners := []string{"o1", "o1x"} // prefix-related ids on purpose
+	widgets := []string{"w1", "w1x"}
 	run := func(sc *fkScenario) {
 		n := len(sc.Ops())
 		runE1(rep, sc, explore.Config{Programs: explore.SingleOps(n)})
@@ -575,8 +575,8 @@ func C04(tier string) int {
 	for _, w := range wirings {
 		run(newFkScenario(w, plainOwners, widgets, "plain ids"))
 	}
-	run(newFkScenario(fkSelfIdxNullable, nil, []string{"w1", "w2", "w3"}, "plain ids"))
-	selfCascade := newFkScenario(fkSelfCascade, nil, []string{"w1", "w2", "w3"}, "plain ids")
+	run(newFkScenario(fkSelfIdxNullable, nil, []string{"w1", "w1x", "w3"}, "plain ids"))
+	selfCascade := newFkScenario(fkSelfCascade, nil, []string{"w1", "w1x", "w3"}, "plain ids")
 	selfCascade.cycleCrash = probeCycleCrashes()
 	rep.Set("cascade_cycle_recursion_observed_in_child_process", selfCascade.cycleCrash)
 	run(selfCascade)
